@@ -120,4 +120,27 @@ theorem ids_start_as_eq_model : Gen.ids_start_as = GenIds.firstId := by first | 
 theorem ids_start_at_eq_model : Gen.ids_start_at = 1 := by first | rfl | decide
 theorem ids_start_atu_eq_model : Gen.ids_start_atu = 1 := by first | rfl | decide
 
+/-- The ten start values, tied to the model's `generateIds` itself (not to a restated literal): with the counters of
+`generate_ids` starting where the source says, the model's output is what it is. -/
+theorem ids_starts_generate (x : GenIds.Input) (h : x.unlinkedTracks = 0) :
+    GenIds.generateIds x = some {
+      programmes := (List.range' Gen.ids_start_apr x.nProgrammes).map GenIds.aprId
+      contents := (List.range' Gen.ids_start_aco x.nContents).map GenIds.acoId
+      objects := (GenIds.enumFrom Gen.ids_start_ao x.objects).map fun p => GenIds.aoId p.1
+      avs := (GenIds.enumFrom Gen.ids_start_ao x.objects).map fun p =>
+        (List.range' Gen.ids_start_avs p.2).map (GenIds.avsId p.1)
+      packs := (GenIds.enumFrom Gen.ids_start_ap x.packs).map fun p => GenIds.apId p.2 p.1
+      channels := (GenIds.enumFrom Gen.ids_start_ac x.channels).map fun p => GenIds.acId p.2.1 p.1
+      blocks := (GenIds.enumFrom Gen.ids_start_ac x.channels).map fun p =>
+        (List.range' Gen.ids_start_ab p.2.2).map (GenIds.abId p.2.1 p.1)
+      streams := (GenIds.enumFrom Gen.ids_start_as x.streams).map fun p => GenIds.asId p.2.1 p.1
+      tracks := (GenIds.enumFrom Gen.ids_start_as x.streams).map fun p =>
+        (List.range' Gen.ids_start_at p.2.2).map (GenIds.atId p.2.1 p.1)
+      trackUIDs := (List.range' Gen.ids_start_atu x.nTrackUIDs).map GenIds.atuId } := by
+  unfold GenIds.generateIds
+  rw [if_neg (by simp [h])]
+  rfl
+
+example : (⟨2, 1, [1, 0], [3], [(1, 2)], [(1, 1)], 0, 2⟩ : GenIds.Input).unlinkedTracks = 0 := rfl
+
 end Earverif.Kernels
